@@ -52,7 +52,7 @@ CLAUSE = {"exc": "a call path raised a different exception type than the convers
 
 # how many signatures of each family are replayed: (quick, thorough)
 QUOTA = {"sel": (26, 260), "sum": (8, 60), "wr": (5, 14), "rdi": (5, 13), "bump": (3, 10), "seterr": (1, 1),
-         "smake": (4, 11), "sget": (5, 33), "vsum": (12, 100)}
+         "smake": (4, 11), "sget": (5, 33), "vsum": (12, 100), "isum": (2, 10), "asum": (2, 4)}
 
 
 XB_CFG = """SPECIFICATION Spec
@@ -152,6 +152,8 @@ def sample_sigs(ctx, sigs):
 def key_of(sig, case, clause, path):
     fam = sig[0]
     types = ",".join(sig[1]) if fam in ("sel", "sum", "vsum") else (str(sig[1]) if len(sig) > 1 else "")
+    if fam in ("isum", "asum") and case.get("args") and case["args"][0][0] in ("list", "tuple"):
+        types += ",n=%d" % len(case["args"][0][1])
     nparams = len(G.arg_types(sig)) + (len(sig[1]) if fam == "vsum" else 0)
     nargs = case.get("nargs", nparams)
     argc = "ok" if nargs == nparams else "short" if nargs < nparams else "long"
@@ -175,9 +177,12 @@ def run_cases(ctx, sigs, cls, vcls, ntuples, tag="m"):
     for name, s in sorted(funcs.items()):
         if s[0] == "vsum":
             continue
-        for j in range(ntuples):
+        forced = []
+        if s[0] == "asum":      # every convertible list class x every length around the 640-byte threshold
+            forced = [(c, n) for c in ("sl_full", "sl_short", "sl_dict", "sl_empty", "sl_tuple") for n in b.big_n(s)]
+        for j in range(len(forced) + (ntuples if not forced else 8)):
             cid += 1
-            case, expect = b.case(cid, name, s, force_ok=(j == 0))
+            case, expect = b.case(cid, name, s, force_ok=(j == 0), force=forced[j] if j < len(forced) else None)
             cases.append(case)
             meta[cid] = (s, expect)
     for s in vs:
